@@ -330,6 +330,10 @@ func (ex *Exec) runAnchors(st *State, when, name string, ord int) (cut bool) {
 		if an.When != when || an.Callee != name || an.Ord != ord || !ex.propActive(an.Props) {
 			continue
 		}
+		if ex.firedAnchors == nil {
+			ex.firedAnchors = map[*Anchored]bool{}
+		}
+		ex.firedAnchors[an] = true
 		env := ex.specEnvFor(st, ex.top)
 		for k, v := range st.frame.ghost {
 			env.bind[k] = v
